@@ -311,13 +311,22 @@ func init() {
 	})
 
 	// ----- math -----
+	integralLike := func(res, x *smt.Term) *smt.Term {
+		if bi := getRealInfo(x); bi.bound != nil && !res.IsConst() {
+			setRealInfo(res, realInfo{integral: true, bound: new(big.Int).Add(bi.bound, big.NewInt(1))})
+		}
+		return res
+	}
 	reg("math.Ceil", func(m *M, fn *ssa.Function, a []Value, r ssa.Value) Value {
 		x := tv(a[0])
+		if hasPoison(x) {
+			return x
+		}
 		fl := smt.ToReal(smt.ToIntFloor(x))
-		return smt.Ite(smt.IsInt(x), x, smt.RAdd(fl, smt.RealC(big.NewRat(1, 1))))
+		return integralLike(smt.Ite(smt.IsInt(x), x, smt.RAdd(fl, smt.RealC(big.NewRat(1, 1)))), x)
 	})
 	reg("math.Floor", func(m *M, fn *ssa.Function, a []Value, r ssa.Value) Value {
-		return smt.ToReal(smt.ToIntFloor(tv(a[0])))
+		return integralLike(smt.ToReal(smt.ToIntFloor(tv(a[0]))), tv(a[0]))
 	})
 	reg("math.Trunc", func(m *M, fn *ssa.Function, a []Value, r ssa.Value) Value {
 		x := tv(a[0])
@@ -329,7 +338,7 @@ func init() {
 		half := smt.RealC(big.NewRat(1, 2))
 		pos := smt.ToReal(smt.ToIntFloor(smt.RAdd(x, half)))
 		neg := smt.RNeg(smt.ToReal(smt.ToIntFloor(smt.RAdd(smt.RNeg(x), half))))
-		return smt.Ite(smt.RGe(x, smt.RealF(0)), pos, neg)
+		return integralLike(smt.Ite(smt.RGe(x, smt.RealF(0)), pos, neg), x)
 	})
 	reg("math.Abs", func(m *M, fn *ssa.Function, a []Value, r ssa.Value) Value { return rabs(tv(a[0])) })
 	reg("math.Max", func(m *M, fn *ssa.Function, a []Value, r ssa.Value) Value {
@@ -532,6 +541,26 @@ func (m *M) fmtValue(v Value, verb byte) StrV {
 				}
 				m.st.NextObj++
 				return strC(fmt.Sprintf("<bool#%d>", m.st.NextObj))
+			}
+		}
+	}
+	// slices of pointers print as the list of addresses: an injective function of the ordered object list
+	if iv, ok := v.(IfaceV); ok {
+		if sl, ok := iv.V.(SliceV); ok {
+			es := m.sliceElems(sl)
+			allPtr := true
+			parts := []string{}
+			for _, e := range es {
+				p, ok := e.(PtrV)
+				if !ok {
+					allPtr = false
+					break
+				}
+				parts = append(parts, fmt.Sprintf("0xc%06d%s", p.Obj, strings.ReplaceAll(pathKey(p.Path), " ", ".")))
+			}
+			if allPtr {
+				m.ex.noteAssumption("%v of a pointer slice is modelled as an injective function of the ordered list of objects")
+				return strC("[" + strings.Join(parts, " ") + "]")
 			}
 		}
 	}
